@@ -89,6 +89,7 @@ func specThriftStruct() vt.ProtoSpec {
 		Receiver: func() socket.Message {
 			return socket.NewMessage(socket.WithNewBody(func(socket.Header) interface{} { return new(vt.TStruct) }))
 		},
+		BodyObj: func() interface{} { return new(vt.TStruct) },
 		BodyOf: func(got socket.Message) []byte {
 			b, err := codec.ThriftMarshal(got.Body())
 			if err != nil {
